@@ -872,7 +872,6 @@ class M_run_node(CoroBase):
                             T(r0.kwargs.get('node_id'), st) == n, T(r0.kwargs.get('node_result'), st) == res))
                         and (r0.kwargs.get('dag') is a.dag)))
             out.append(('re-iteration-spawned-through-the-task-registry|C13', len(calls(effects, '_create_task')) == 1))
-            out.append(('re-iteration-spawned-before-the-result-is-stored|C11', order_ok(effects, r0, s0)))
         # ---- C19: the save site -------------------------------------------------------
         if saves:
             v0 = saves[0]
@@ -885,7 +884,8 @@ class M_run_node(CoroBase):
             exd = [e for e in effects if e.kind == 'executed']
             out.append(('saves-only-a-value-this-call-actually-executed|C19', exd[0].first_arrival if exd else False))
         else:
-            out.append(('every-final-value-reaches-the-store|C19', False))
+            # no save on this path: allowed exactly for what is not a final value (a Recurrent marker, a contained failure)
+            out.append(('every-final-value-reaches-the-store|C19', z3.Or(is_rec, PyV.is_exc(res))))
         store_failed = bool(saves) and saves[0].exc is not None
         out += self.exit_notifications(it, pre, a, effects, recurrent=rec_path)
         if store_failed and not rec_path:
